@@ -27,8 +27,9 @@ REPO = Path(os.environ.get('FURAX_REPO', '/repo'))
 COQ = VERIF / 'coq'
 THEORIES = COQ / 'theories'
 WORK = VERIF / '.work'
-EVIDENCE = VERIF / 'evidence'
-REPLAYS = VERIF / 'replays'
+# mutant trials (tools/try_mutant.sh) redirect these so that the committed evidence always comes from /repo itself
+EVIDENCE = Path(os.environ.get('VERIF_EVIDENCE_DIR') or VERIF / 'evidence')
+REPLAYS = Path(os.environ.get('VERIF_REPLAYS_DIR') or VERIF / 'replays')
 KNOWN = VERIF / 'KNOWN_FINDINGS.txt'
 NCPU = os.cpu_count() or 4
 # more than ~4 concurrent coqc processes thrash in this sandbox (measured: -P13 is 3x slower than -P4)
